@@ -12,28 +12,14 @@ import (
 	"time"
 
 	"github.com/openconfig/goyang/pkg/yang"
-	"pgregory.net/rapid"
 
-	"verif/lib/astinfo"
 	"verif/lib/ev"
-	"verif/lib/rfc6"
-	"verif/lib/schema"
-	"verif/lib/textgen"
-	"verif/lib/ymodel"
+	"verif/lib/hostile"
 )
 
-type File struct {
-	Name string `json:"name"`
-	Text string `json:"text"`
-}
+type File = hostile.File
 
-type Case struct {
-	Files         []File `json:"files"`
-	IgnoreCirc    bool   `json:"ignore_circular,omitempty"`
-	IgnoreNotSupp bool   `json:"ignore_not_supported,omitempty"`
-	StoreUses     bool   `json:"store_uses,omitempty"`
-	Gen           string `json:"generator,omitempty"`
-}
+type Case = hostile.Case
 
 type stats struct {
 	parsed, loaded, errors, entries int
@@ -196,384 +182,6 @@ wait:
 	return o
 }
 
-// ---- generators ----
-
-func toNodes(ss []*rfc6.Stmt) []*rfc6.Node {
-	var out []*rfc6.Node
-	for _, s := range ss {
-		out = append(out, &rfc6.Node{Keyword: s.Keyword, HasArg: s.HasArg, Arg: s.Arg, Subs: toNodes(s.Subs)})
-	}
-	return out
-}
-
-func printPlain(t *rapid.T, f []*rfc6.Node) string {
-	for _, n := range collect(f) {
-		if !rfc6.UnquotedOK(n.Keyword) {
-			n.Keyword = "x"
-		}
-	}
-	p := rfc6.NewPrinter(textgen.Chooser{T: t})
-	p.Plain = true
-	p.Forest(f)
-	return p.String()
-}
-
-func collect(f []*rfc6.Node) []*rfc6.Node {
-	var all []*rfc6.Node
-	textgen.Walk(f, nil, func(n, _ *rfc6.Node) { all = append(all, n) })
-	return all
-}
-
-var metaNames = []string{"Name", "Statement", "Parent", "Ext"}
-
-// mutate applies one statement-level mutation to a forest.
-func mutate(t *rapid.T, f []*rfc6.Node) []*rfc6.Node {
-	all := collect(f)
-	if len(all) == 0 {
-		return f
-	}
-	pick := func(l string) *rfc6.Node { return all[rapid.IntRange(0, len(all)-1).Draw(t, l)] }
-	switch rapid.IntRange(0, 8).Draw(t, "mutation") {
-	case 0: // delete a substatement
-		p := pick("parent")
-		if len(p.Subs) > 0 {
-			i := rapid.IntRange(0, len(p.Subs)-1).Draw(t, "del")
-			p.Subs = append(p.Subs[:i:i], p.Subs[i+1:]...)
-		}
-	case 1: // duplicate a substatement
-		p := pick("parent")
-		if len(p.Subs) > 0 {
-			p.Subs = append(p.Subs, p.Subs[rapid.IntRange(0, len(p.Subs)-1).Draw(t, "dup")])
-		}
-	case 2: // move a statement under another parent
-		a, b := pick("from"), pick("to")
-		if len(a.Subs) > 0 && a != b {
-			i := rapid.IntRange(0, len(a.Subs)-1).Draw(t, "mv")
-			n := a.Subs[i]
-			// avoid making a node its own ancestor
-			inside := false
-			textgen.Walk([]*rfc6.Node{n}, nil, func(x, _ *rfc6.Node) {
-				if x == b {
-					inside = true
-				}
-			})
-			if !inside {
-				a.Subs = append(a.Subs[:i:i], a.Subs[i+1:]...)
-				b.Subs = append(b.Subs, n)
-			}
-		}
-	case 3: // replace a keyword
-		n := pick("victim")
-		n.Keyword = rapid.SampledFrom(append(append([]string{"foo", "p:ext", "x:y:z"}, metaNames...), astinfo.Keywords()...)).Draw(t, "keyword")
-	case 4: // argument refers to itself / a sibling / nothing
-		n := pick("victim")
-		switch rapid.IntRange(0, 3).Draw(t, "arg") {
-		case 0:
-			n.HasArg, n.Arg = false, ""
-		case 1:
-			n.Arg = ""
-		case 2:
-			o := pick("other")
-			n.HasArg, n.Arg = true, o.Arg
-		default:
-			// the enclosing definition's own name (self reference)
-			for _, p := range all {
-				for _, ch := range p.Subs {
-					if ch == n {
-						n.HasArg, n.Arg = true, p.Arg
-					}
-				}
-			}
-		}
-	case 5: // hostile numeric / odd arguments
-		n := pick("victim")
-		n.HasArg = true
-		n.Arg = rapid.SampledFrom([]string{"-1", "0", "18446744073709551616", "-18446744073709551615", "99999999999999999999999999", "1..", "a:b:c", "/", "//", "../..", "/a:b/", ":", "@", "2020-13-45", "unbounded", "min..max", "true", " "}).Draw(t, "odd-arg")
-	case 6: // drop a whole top-level statement
-		if len(f) > 1 {
-			i := rapid.IntRange(0, len(f)-1).Draw(t, "drop-top")
-			f = append(f[:i:i], f[i+1:]...)
-		}
-	case 7: // rename a definition to collide with a sibling
-		p := pick("parent")
-		if len(p.Subs) >= 2 {
-			a := p.Subs[rapid.IntRange(0, len(p.Subs)-1).Draw(t, "a")]
-			b := p.Subs[rapid.IntRange(0, len(p.Subs)-1).Draw(t, "b")]
-			a.HasArg, a.Arg = true, b.Arg
-		}
-	default: // swap two keywords
-		a, b := pick("a"), pick("b")
-		a.Keyword, b.Keyword = b.Keyword, a.Keyword
-	}
-	return f
-}
-
-// G1: valid sets from the schema model with 1-3 statement-level mutations.
-func genMutated(t *rapid.T) Case {
-	o := ymodel.DefaultOpts()
-	o.Budget = 16
-	set, _ := schema.Generate(t, o)
-	schema.AddAugments(t, set, 0, 2)
-	schema.AddIdentities(t, set, 4)
-	if rapid.IntRange(0, 2).Draw(t, "deviations") == 0 {
-		schema.AddDeviations(t, set, schema.DevOpts{Modules: 1, Max: 3, NotSupported: true, Operations: true})
-	}
-	c := Case{Gen: "mutated-valid-set"}
-	srcs := set.Texts()
-	if len(srcs) > 4 {
-		srcs = srcs[len(srcs)-4:]
-	}
-	k := rapid.IntRange(1, 3).Draw(t, "mutations")
-	victim := rapid.IntRange(0, len(srcs)-1).Draw(t, "victim-file")
-	for i, s := range srcs {
-		text := s.Text
-		if i == victim || rapid.IntRange(0, 3).Draw(t, "also") == 0 {
-			ref := rfc6.Parse(text)
-			if ref.OK {
-				f := toNodes(ref.Stmts)
-				for j := 0; j < k; j++ {
-					f = mutate(t, f)
-				}
-				text = printPlain(t, f)
-			}
-		}
-		c.Files = append(c.Files, File{Name: s.Name, Text: text})
-	}
-	if rapid.IntRange(0, 4).Draw(t, "drop-file") == 0 && len(c.Files) > 1 {
-		i := rapid.IntRange(0, len(c.Files)-1).Draw(t, "dropped")
-		c.Files = append(c.Files[:i:i], c.Files[i+1:]...)
-	}
-	if rapid.Bool().Draw(t, "shuffle") {
-		c.Files = rapid.Permutation(c.Files).Draw(t, "order")
-	}
-	return c
-}
-
-// G2: keyword soup.
-func genSoup(t *rapid.T) Case {
-	kws := append(append([]string{"foo", "p:ext"}, metaNames...), astinfo.Keywords()...)
-	var node func(depth int) *rfc6.Node
-	n := 0
-	node = func(depth int) *rfc6.Node {
-		n++
-		x := &rfc6.Node{Keyword: rapid.SampledFrom(kws).Draw(t, "kw")}
-		if rapid.IntRange(0, 4).Draw(t, "has-arg") > 0 {
-			x.HasArg = true
-			x.Arg = rapid.SampledFrom([]string{"a", "b", "c", "a", "p:a", "q:b", "/p:a", "/p:a/p:b", "string", "int8", "1", "-1", "true", "2020-01-01", "not-supported", "add", "urn:x", "p", "", "1..10", "../a", "m", "s"}).Draw(t, "arg")
-		}
-		if depth < 4 && n < 40 {
-			k := rapid.IntRange(0, 4).Draw(t, "children")
-			for i := 0; i < k; i++ {
-				x.Subs = append(x.Subs, node(depth+1))
-			}
-		}
-		return x
-	}
-	c := Case{Gen: "keyword-soup"}
-	nf := rapid.IntRange(1, 3).Draw(t, "files")
-	for i := 0; i < nf; i++ {
-		root := node(0)
-		if rapid.IntRange(0, 3).Draw(t, "module-root") > 0 {
-			root.Keyword = rapid.SampledFrom([]string{"module", "module", "submodule"}).Draw(t, "root")
-			root.HasArg, root.Arg = true, rapid.SampledFrom([]string{"m", "s", "a"}).Draw(t, "modname")
-			// often give it what a (sub)module needs so that it is accepted
-			if rapid.Bool().Draw(t, "header") {
-				if root.Keyword == "module" {
-					root.Subs = append([]*rfc6.Node{{Keyword: "namespace", HasArg: true, Arg: "urn:" + root.Arg}, {Keyword: "prefix", HasArg: true, Arg: "p"}}, root.Subs...)
-				} else {
-					root.Subs = append([]*rfc6.Node{{Keyword: "belongs-to", HasArg: true, Arg: "m", Subs: []*rfc6.Node{{Keyword: "prefix", HasArg: true, Arg: "p"}}}}, root.Subs...)
-				}
-			}
-		}
-		f := []*rfc6.Node{root}
-		if rapid.IntRange(0, 5).Draw(t, "second-top") == 0 {
-			f = append(f, node(1))
-		}
-		c.Files = append(c.Files, File{Name: fmt.Sprintf("f%d.yang", i), Text: printPlain(t, f)})
-	}
-	return c
-}
-
-// G3: parametrised hostile templates.
-func genTemplate(t *rapid.T) Case {
-	c := Case{Gen: "hostile-template"}
-	mod := func(name, body string) File {
-		return File{Name: name + ".yang", Text: fmt.Sprintf("module %s { namespace \"urn:%s\"; prefix %s; %s }", name, name, name, body)}
-	}
-	sub := func(name, of, body string) File {
-		return File{Name: name + ".yang", Text: fmt.Sprintf("submodule %s { belongs-to %s { prefix %s; } %s }", name, of, of, body)}
-	}
-	n := rapid.IntRange(1, 4).Draw(t, "cycle-length")
-	cyc := func(i int) int { return (i + 1) % n }
-	where := rapid.SampledFrom([]string{"", "container w { %s }", "grouping w { %s }", "rpc w { input { %s } }", "list w { key k; leaf k { type string; } %s }", "notification w { %s }"}).Draw(t, "scope")
-	wrap := func(s string) string {
-		if where == "" {
-			return s
-		}
-		return fmt.Sprintf(where, s)
-	}
-	switch rapid.SampledFrom([]string{"typedef-cycle", "uses-cycle", "identity-cycle", "include-cycle", "import-cycle", "cross-module-typedef-cycle", "cross-module-uses-cycle", "absent", "lone-submodule", "bad-augment", "bad-deviation", "duplicates", "numbers", "leafref-union-cycle", "choice-case-oddities", "fan-in"}).Draw(t, "template") {
-	case "typedef-cycle":
-		var b strings.Builder
-		for i := 0; i < n; i++ {
-			fmt.Fprintf(&b, "typedef t%d { type t%d; } ", i, cyc(i))
-		}
-		b.WriteString("leaf l { type t0; } ")
-		if rapid.Bool().Draw(t, "union") {
-			b.WriteString("typedef u { type union { type u; type string; } } leaf lu { type u; } ")
-		}
-		c.Files = append(c.Files, mod("m", wrap(b.String())))
-	case "uses-cycle":
-		var b strings.Builder
-		usesSub := func(label string) string {
-			// substatements on the uses statements (also on the one that closes the cycle)
-			return rapid.SampledFrom([]string{";", ";", " { when \"../x\"; }", " { if-feature f; }", " { status deprecated; reference r; }", " { description d; }", " { when \"a\"; if-feature f; status current; }", " { refine l0 { default x; } }", " { augment l0 { leaf q { type string; } } }"}).Draw(t, label)
-		}
-		for i := 0; i < n; i++ {
-			fmt.Fprintf(&b, "grouping g%d { leaf l%d { type string; } uses g%d%s } ", i, i, cyc(i), usesSub(fmt.Sprintf("uses-sub-%d", i)))
-		}
-		b.WriteString("feature f; ")
-		if rapid.Bool().Draw(t, "used") {
-			fmt.Fprintf(&b, "container c { uses g0%s } ", usesSub("uses-sub-c"))
-		}
-		if rapid.Bool().Draw(t, "nested-self") {
-			b.WriteString("grouping outer { grouping inner { uses outer; } uses inner; } uses outer; ")
-		}
-		c.Files = append(c.Files, mod("m", wrap(b.String())))
-	case "identity-cycle":
-		var b strings.Builder
-		for i := 0; i < n; i++ {
-			fmt.Fprintf(&b, "identity i%d { base i%d; } ", i, cyc(i))
-		}
-		b.WriteString("leaf l { type identityref { base i0; } } typedef ti { type identityref { base i0; } } ")
-		c.Files = append(c.Files, mod("m", b.String()))
-	case "include-cycle":
-		body := ""
-		for i := 0; i < n; i++ {
-			body += fmt.Sprintf("include s%d; ", i)
-		}
-		c.Files = append(c.Files, mod("m", body+"leaf top { type string; }"))
-		for i := 0; i < n; i++ {
-			c.Files = append(c.Files, sub(fmt.Sprintf("s%d", i), "m", fmt.Sprintf("include s%d; leaf sl%d { type string; } grouping sg%d { leaf x%d { type string; } } uses sg%d;", cyc(i), i, i, i, cyc(i))))
-		}
-		c.IgnoreCirc = rapid.Bool().Draw(t, "ignore-circular")
-	case "import-cycle":
-		// the prefix of the imports: ordinary, empty, or the importing module's own
-		pfx := rapid.SampledFrom([]string{"o", "o", "\"\"", "self"}).Draw(t, "import-prefix")
-		for i := 0; i < n; i++ {
-			name := fmt.Sprintf("m%d", i)
-			decl, ref := pfx, pfx+":"
-			switch pfx {
-			case "\"\"":
-				ref = ""
-			case "self":
-				decl, ref = name, name+":"
-			}
-			c.Files = append(c.Files, mod(name, fmt.Sprintf("import m%d { prefix %s; } typedef t { type %st; } leaf l { type %st; } grouping g { uses %sg; } uses g; identity i { base %si; } container c { uses %snosuch; } leaf l2 { type %snosuch; } identity j { base %snosuch; }", cyc(i), decl, ref, ref, ref, ref, ref, ref, ref)))
-		}
-	case "fan-in":
-		// every definition refers several times to the one before it: the work must not multiply per level
-		depth := rapid.IntRange(8, 48).Draw(t, "depth")
-		fan := rapid.IntRange(2, 3).Draw(t, "fan")
-		var b strings.Builder
-		switch rapid.SampledFrom([]string{"typedef-union", "identity-bases", "leaf-union"}).Draw(t, "fan-kind") {
-		case "typedef-union":
-			base := rapid.SampledFrom([]string{"type nosuch;", "type uint8 { range \"5..1\"; }", "type string;", fmt.Sprintf("type f%d;", depth), "type zz:t;", "type string { pattern \"(\"; }", "type leafref { path \"../nosuch\"; }"}).Draw(t, "fan-base")
-			fmt.Fprintf(&b, "typedef f0 { %s } ", base)
-			for i := 1; i <= depth; i++ {
-				fmt.Fprintf(&b, "typedef f%d { type union {", i)
-				for j := 0; j < fan; j++ {
-					fmt.Fprintf(&b, " type f%d;", i-1)
-				}
-				b.WriteString(" } } ")
-			}
-			fmt.Fprintf(&b, "leaf l { type f%d; } leaf l2 { type union { type f%d; type f%d; } } ", depth, depth, depth-1)
-		case "identity-bases":
-			base := rapid.SampledFrom([]string{"", "base nosuch;", fmt.Sprintf("base i%d;", depth), "base zz:i;"}).Draw(t, "fan-base")
-			fmt.Fprintf(&b, "identity i0 { %s } ", base)
-			for i := 1; i <= depth; i++ {
-				fmt.Fprintf(&b, "identity i%d {", i)
-				for j := 0; j < fan; j++ {
-					fmt.Fprintf(&b, " base i%d;", i-rapid.IntRange(1, min(i, 2)).Draw(t, "back"))
-				}
-				b.WriteString(" } ")
-			}
-			b.WriteString("leaf l { type identityref { base i0; } } ")
-		default:
-			// one leaf whose union nests the same (broken) typedef reference at every level
-			base := rapid.SampledFrom([]string{"nosuch", "bad", "string"}).Draw(t, "fan-base")
-			b.WriteString("typedef bad { type int8 { range \"1..2..3\"; } } leaf l { ")
-			for i := 0; i < depth; i++ {
-				fmt.Fprintf(&b, "type union { type %s; ", base)
-			}
-			fmt.Fprintf(&b, "type %s; ", base)
-			for i := 0; i < depth; i++ {
-				b.WriteString("} ")
-			}
-			b.WriteString("} ")
-		}
-		c.Files = append(c.Files, mod("m", wrap(b.String())))
-	case "cross-module-typedef-cycle":
-		c.Files = append(c.Files, mod("a", "import b { prefix b; } typedef t { type b:t; } leaf l { type t; }"), mod("b", "import a { prefix a; } typedef t { type a:t; }"))
-	case "cross-module-uses-cycle":
-		c.Files = append(c.Files, mod("a", "import b { prefix b; } grouping g { uses b:g; } container c { uses g; }"), mod("b", "import a { prefix a; } grouping g { uses a:g; }"))
-	case "absent":
-		// names of modules that are not loaded, some of which could be taken for paths
-		odd := func(label string) string {
-			return ymodel.Q(rapid.SampledFrom([]string{"absent", "absent", "absent", "/dev/zero", "/dev/null", "../m", "./m", "a/b", "m.yang", "/", "", ".", "..", "/proc/self/cmdline", "absent@2020-01-01", "/dev/zero.yang"}).Draw(t, label))
-		}
-		revd := rapid.SampledFrom([]string{"", "", " revision-date 2020-01-01;", " revision-date \"/../../../../dev/zero\";", " revision-date \"\";"}).Draw(t, "absent-revision-date")
-		c.Files = append(c.Files, mod("m", wrap("leaf l1 { type zz:t; } leaf l2 { type nosuch; } uses zz:g; uses nosuch;")+" import "+odd("absent-import")+" { prefix ab;"+revd+" } include "+odd("absent-include")+"; leaf l3 { type ab:t; } identity i { base ab:i; } identity j { base zz:k; } augment \"/ab:c\" { leaf x { type string; } } deviation \"/ab:c\" { deviate not-supported; }"))
-	case "lone-submodule":
-		c.Files = append(c.Files, sub("s", "m", "include s2; import other { prefix o; } typedef t { type o:t; } leaf l { type t; } leaf l2 { type nosuch; } identity i { base j; } leaf r { type identityref { base i; } } grouping g { leaf x { type t; } } uses g; augment \"/m:c\" { leaf y { type string; } } deviation \"/m:l\" { deviate not-supported; } rpc op { input { leaf z { type t; } } }"))
-		if rapid.Bool().Draw(t, "second-lone") {
-			c.Files = append(c.Files, sub("s2", "m", "include s; leaf q { type string; }"))
-		}
-	case "bad-augment":
-		target := rapid.SampledFrom([]string{"/m:l", "/m:ll", "/m:op", "/m:op/m:input", "/m:op/m:nosuch", "/m:ch/m:sl", "/m:ch", "/m:nosuch", "/m:c/m:nosuch", "/zz:c", "m:c", "/", "", "//m:c", "/m:c/", "/m:c/..", "/m:x", "/m:n", "/m:act/m:a", "/m:c/m:a/m:input"}).Draw(t, "target")
-		c.Files = append(c.Files, mod("m", fmt.Sprintf("leaf l { type string; } leaf-list ll { type string; } rpc op { } choice ch { leaf sl { type string; } } container c { action a { } } anydata x; notification n { } augment %s { leaf added { type string; } container cc { leaf l { type string; } } uses nosuch; } augment %s { leaf added { type string; } }", ymodel.Q(target), ymodel.Q(target))))
-	case "bad-deviation":
-		target := rapid.SampledFrom([]string{"/m:l", "/m:nosuch", "/m:c/m:gone", "/m:c", "/m:op/m:input", "/m:op", "/", "", "/m:ll"}).Draw(t, "target")
-		dev := rapid.SampledFrom([]string{"deviate not-supported;", "deviate add { default 1; default 2; }", "deviate delete { default 5; min-elements 1; max-elements 2; }", "deviate replace { type nosuch; }", "deviate replace { type string { length \"5..1\"; } }", "deviate bogus;", "deviate add { min-elements -1; max-elements 0; }", "deviate add { max-elements 99999999999999999999; }", "deviate replace { config maybe; mandatory perhaps; }", "deviate not-supported; deviate add { default x; }", "deviate add; deviate replace; deviate delete;"}).Draw(t, "deviate")
-		c.Files = append(c.Files, mod("m", "leaf l { type string; default d; } leaf-list ll { type string; } container c { leaf gone { type string; } } rpc op { input { leaf i { type string; } } }"),
-			mod("d", fmt.Sprintf("import m { prefix m; } deviation \"/m:c/m:gone\" { deviate not-supported; } deviation %s { %s } deviation %s { %s }", ymodel.Q(target), dev, ymodel.Q(target), dev)))
-		c.IgnoreNotSupp = rapid.Bool().Draw(t, "ignore-not-supported")
-	case "duplicates":
-		c.Files = append(c.Files, mod("m", wrap("leaf a { type string; } leaf a { type int8; } container a { } typedef t { type string; } typedef t { type int8; } grouping g { leaf a { type string; } } grouping g { leaf b { type string; } } uses g; uses g;")+" identity i; identity i; revision 2020-01-01; revision 2020-01-01; rpc a { } notification a { }"),
-			mod("m", "leaf other { type string; }"))
-		if rapid.Bool().Draw(t, "dup-revision") {
-			c.Files = append(c.Files, File{Name: "m@2020-01-01.yang", Text: "module m { namespace \"urn:m\"; prefix m; revision 2020-01-01; }"}, File{Name: "m@2020-01-01b.yang", Text: "module m { namespace \"urn:m2\"; prefix m; revision 2020-01-01; }"})
-		}
-	case "numbers":
-		v := rapid.SampledFrom([]string{"-1", "0", "18446744073709551615", "18446744073709551616", "-18446744073709551615", "-9223372036854775809", "99999999999999999999999", "0x10", "1e5", "", " ", "+", "-", "1.5", "١"}).Draw(t, "value")
-		q := ymodel.Q(v)
-		fd := rapid.SampledFrom([]string{"0", "1", "18", "19", "63", "64", "65", "100", "128", "255", "256", "257", "320", "-1", "-192", "-256", "4294967297", "18446744073709551617"}).Draw(t, "fraction-digits")
-		rng := rapid.SampledFrom([]string{"min..max", "min", "max", "1..10", "min..0 | 1..max", "-1.5..1.5"}).Draw(t, "fd-range")
-		c.Files = append(c.Files, mod("fd", fmt.Sprintf("typedef d { type decimal64 { fraction-digits %s; range %s; } } leaf a { type d; } leaf b { type decimal64 { fraction-digits %s; } default 1.5; } leaf u { type union { type decimal64 { fraction-digits %s; } type decimal64 { fraction-digits %s; } type d; } } leaf c { type d { range %s; } }", fd, ymodel.Q(rng), fd, fd, fd, ymodel.Q(rng))))
-		c.Files = append(c.Files, mod("m", fmt.Sprintf("leaf a { type decimal64 { fraction-digits %s; range %s; } } leaf b { type enumeration { enum x { value %s; } enum y; } } leaf c { type bits { bit x { position %s; } bit y; } } leaf-list d { type string { length %s; } min-elements %s; max-elements %s; } list e { key k; leaf k { type string; } min-elements %s; max-elements %s; } leaf f { type uint64 { range \"%s..%s | %s\"; } } leaf g { type int8 { range %s; } default %s; }", q, q, q, q, q, q, q, q, q, v, v, v, q, q)))
-	case "leafref-union-cycle":
-		c.Files = append(c.Files, mod("m", "leaf a { type leafref { path \"../b\"; } } leaf b { type leafref { path \"../a\"; } } leaf c { type leafref { path \"\"; } } leaf d { type leafref; } typedef u { type union; } leaf e { type u; } leaf f { type union { type union { type union { type f; } } } } leaf g { type identityref; } leaf h { type instance-identifier { require-instance maybe; } } leaf i { type enumeration; } leaf j { type bits; } leaf k { type decimal64; }"))
-	default: // choice-case-oddities
-		c.Files = append(c.Files, mod("m", "choice c { case a { leaf a { type string; } } leaf a { type string; } case b { choice d { leaf a { type string; } } } default nosuch; } choice e { } choice f { case g { } } list l { key \"a b nosuch\"; leaf a { type string; } } list l2 { } container co { presence p; config maybe; } leaf m { type string; mandatory perhaps; } augment \"/m:c\" { case a { leaf z { type string; } } leaf a { type string; } } augment \"/m:c/m:a\" { leaf w { type string; } } augment \"/m:c/m:a/m:a\" { leaf w { type string; } }"))
-	}
-	c.StoreUses = rapid.Bool().Draw(t, "store-uses")
-	if rapid.IntRange(0, 3).Draw(t, "shuffle") == 0 && len(c.Files) > 1 {
-		c.Files = rapid.Permutation(c.Files).Draw(t, "order")
-	}
-	return c
-}
-
-func gen(t *rapid.T) Case {
-	switch rapid.IntRange(0, 9).Draw(t, "generator") {
-	case 0, 1, 2, 3:
-		return genMutated(t)
-	case 4, 5, 6:
-		return genSoup(t)
-	default:
-		return genTemplate(t)
-	}
-}
-
 func TestCheck(t *testing.T) {
 	ev.Run(t, ev.Spec[Case]{
 		ID:    "C01",
@@ -586,7 +194,7 @@ func TestCheck(t *testing.T) {
 			"'bounded time' is decided as 'well under 60 s for <= 64 KiB'; super-linear but terminating behaviour on huge inputs is not explored",
 		},
 		Check: check,
-		Gen:   gen,
+		Gen:   hostile.Gen,
 		Risky: true,
 	})
 }
